@@ -1340,7 +1340,7 @@ pub fn run_c11(tier: &str, seed: u64) -> Report {
   report
 }
 
-/// minimised inputs of repaired findings, checked first on every run
+/// minimised inputs of repaired findings (and of the open one about fast check, F34), checked first on every run
 pub fn regression_worlds() -> Vec<(&'static str, FcWorld)> {
   let pkg = |files: &[(&str, &str)]| FcWorld {
     main: "import * as a from \"jsr:@s/a@1\";\n".into(),
@@ -1359,7 +1359,53 @@ pub fn regression_worlds() -> Vec<(&'static str, FcWorld)> {
       ("/b.ts", "import Foo from \"./a.ts\";\nexport type T3 = Foo.B;\n"),
       ("/c.ts", "import * as ns from \"./a.ts\";\nexport type N = typeof ns;\n"),
     ]),
+  ), (
+    "F34 (open): a name imported through `export *` declarations that form a cycle",
+    pkg(&[
+      ("/mod.ts", "import { X } from \"./a.ts\";\nexport interface U { x: X }\n"),
+      ("/a.ts", "export * from \"./b.ts\";\n"),
+      ("/b.ts", "export * from \"./a.ts\";\nexport * from \"./c.ts\";\n"),
+      ("/c.ts", "export interface X { v: string }\n"),
+    ]),
   )]
+}
+
+/// do the `export * from "./x"` declarations of the world's sources form a cycle?
+fn star_cycle_in_sources(w: &FcWorld) -> bool {
+  let mut edges: BTreeMap<String, Vec<String>> = BTreeMap::new();
+  for p in &w.pkgs {
+    for (path, text) in &p.files {
+      let from = FcWorld::url(p, path);
+      for line in text.lines() {
+        let l = line.trim();
+        if let Some(rest) = l.strip_prefix("export * from \"") {
+          if let Some(spec) = rest.split('"').next() {
+            if spec.starts_with("./") || spec.starts_with("../") {
+              if let Some(to) = deno_graph::ModuleSpecifier::parse(&from).ok().and_then(|b| b.join(spec).ok()) {
+                edges.entry(from.clone()).or_default().push(to.to_string());
+              }
+            }
+          }
+        }
+      }
+    }
+  }
+  // a node that reaches itself
+  for start in edges.keys() {
+    let mut seen = BTreeSet::new();
+    let mut stack: Vec<&String> = edges.get(start).map(|v| v.iter().collect()).unwrap_or_default();
+    while let Some(n) = stack.pop() {
+      if n == start {
+        return true;
+      }
+      if seen.insert(n.clone()) {
+        if let Some(v) = edges.get(n) {
+          stack.extend(v.iter());
+        }
+      }
+    }
+  }
+  false
 }
 
 pub fn run_c09(tier: &str, seed: u64) -> Report {
@@ -1539,7 +1585,9 @@ pub fn run_c09(tier: &str, seed: u64) -> Report {
           return;
         }
         if !exported_by(&exports_of, &resolve, &t, name, &mut BTreeSet::new()) {
-          report.fail("oracle", "imported-name-not-exported-by-emitted-counterpart", format!("{}: {} `{}` from {} which emits exports {:?}", u, what, name, t, exports_of.get(&t)), replay.clone());
+          // known defect trigger (F34): the `export *` declarations of the package's sources form a cycle
+          let shape = if star_cycle_in_sources(w) { "name-imported-through-export-star-cycle-not-exported" } else { "imported-name-not-exported-by-emitted-counterpart" };
+          report.fail("oracle", shape, format!("{}: {} `{}` from {} which emits exports {:?}", u, what, name, t, exports_of.get(&t)), replay.clone());
         }
       };
       for (_, from, name) in x.imports() {
